@@ -24,6 +24,9 @@ def worktree(tag, patch):
     if patch:
         r = sh("git -C %s apply %s" % (wt, patch))
         if r.returncode:
+            # the repository moved on since the change was made: fall back to a three-way merge of the patch
+            r = sh("git -C %s apply -3 %s" % (wt, patch))
+        if r.returncode:
             sh("git -C /repo worktree remove --force %s" % wt)
             return None, r.stderr
     return wt, ""
